@@ -231,10 +231,19 @@ class Run:
             self.acted.add(g)
             # operand values < 6 prefer a cached world other than the current one (a left world)
             others = [x for x in self.handles if x.cached and x is not self.loop.current_world_handle]
-            h = others[fr[1] % len(others)] if others and fr[1] < 6 else self.handles[fr[1] % len(self.handles)]
-            if not h.cached:
-                return
-            w = h()
+            cur_world = self.loop.current_world
+            stale = [x for x in self.instances if x is not cur_world and not any(
+                hh.cached and hh() is x for hh in self.handles)]
+            if fr[1] >= 6 and stale:
+                # an instance that was left and whose handle was cleared meanwhile (the program still holds a
+                # reference to it): it is never entered again, whatever is dispatched to it stays with it
+                w = stale[fr[1] % len(stale)]
+                self.flags['probe_to_a_discarded_instance'] += 1
+            else:
+                h = others[fr[1] % len(others)] if others and fr[1] < 6 else self.handles[fr[1] % len(self.handles)]
+                if not h.cached:
+                    return
+                w = h()
             token = ('token', g)
             self.log.append(('D', self.inst_of[id(w)], token))
             w.dispatch('probe', token)
